@@ -20,8 +20,27 @@ func Now() int64 { return int64(time.Since(clock)) }
 
 var seqCounter int64
 
+var unordered int32
+
+// SetUnordered switches the global event sequence off (NextSeq returns 0). An atomic read-modify-write on one
+// process-wide counter orders every goroutine that records an event; under the race detector that hides races
+// between the library goroutines calling into different transports. Race-detection workloads that do not need
+// the global order switch it off.
+func SetUnordered(b bool) {
+	v := int32(0)
+	if b {
+		v = 1
+	}
+	atomic.StoreInt32(&unordered, v)
+}
+
 // NextSeq returns the next value of the global event sequence.
-func NextSeq() int64 { return atomic.AddInt64(&seqCounter, 1) }
+func NextSeq() int64 {
+	if atomic.LoadInt32(&unordered) != 0 {
+		return 0
+	}
+	return atomic.AddInt64(&seqCounter, 1)
+}
 
 // WriteRec is one Write call seen by a transport.
 type WriteRec struct {
